@@ -80,15 +80,18 @@ ScArr(ops) == Sc(<<<<QArr, 1>>>>, <<<<1, 1, 0, ops>>>>, 256, <<QArr \o LF>>, [hd
 BlkData(n) == [i \in 1..n |-> IF i % 7 = 0 THEN 10 ELSE IF i % 5 = 0 THEN 59 ELSE (i * 37) % 256]
 Compositions(n) == IF n = 0 THEN {<<>>} ELSE { c \in UNION {[1..k -> 1..n] : k \in 1..n} : FoldSum(c) = n }
 BigLens == {9, 10, 11, 99, 100, 101, 999, 1000, 9999, 10000, 99999, 100000, 999999, 1000000, 9999999, 10000000, 99999999, 100000000, 999999999}
+Deep == MaxSig >= 2        \* the thorough tier
+LongLens == IF Deep THEN {7, 8, 9, 16, 17, 31, 32, 33, 64, 100, 255, 300} ELSE {7, 8, 9, 16, 17}
+BlkLens == {0, 1, 2, 9, 10, 11, 99, 100, 101, 255} \cup (IF Deep THEN {256, 300, 999, 1000, 1001, 9999, 10000} ELSE {})
 InitC17 ==
   \/ \E s \in {1, 2, 4, 8}, fmt \in 0..2, n \in 0..MaxUnits, k \in 1..3 : \E es \in [1..n -> 1..4] :
         /\ k <= Len(ArrKinds[s]) /\ (fmt = 0 => s <= 2) /\ Part = (s + fmt + n) % NParts
         /\ sc = ScArr(<< <<"r", ArrKinds[s][k], fmt, n, [i \in 1..n |-> ArrPat[s][es[i]]]>>, <<"r", "i32", 7>> >>)
-  \/ \E s \in {1, 2, 4, 8}, fmt \in 1..2, n \in {7, 8, 9, 16, 17} :      \* longer arrays (batching, alignment)
-        /\ Part = (s + fmt + n) % NParts
-        /\ sc = ScArr(<< <<"r", ArrKinds[s][1], fmt, n, [i \in 1..n |-> [j \in 1..s |-> (37 * i + 11 * j) % 256]]>>, <<"r", "i32", 7>> >>)   \* every element different
-  \/ \E n \in {0, 1, 2, 9, 10, 11, 99, 100, 101, 255} : Part = n % NParts /\ sc = ScArr(<< <<"r", "blk", BlkData(n)>>, <<"r", "i32", 7>> >>)
-  \/ \E n \in 1..4 : \E c \in Compositions(n) : Part = n % NParts /\
+  \/ \E s \in {1, 2, 4, 8}, fmt \in 1..2, n \in LongLens, k \in 1..3 :      \* longer arrays (batching, alignment)
+        /\ Part = (s + fmt + n) % NParts /\ k <= Len(ArrKinds[s]) /\ (Deep \/ k = 1)
+        /\ sc = ScArr(<< <<"r", ArrKinds[s][k], fmt, n, [i \in 1..n |-> [j \in 1..s |-> (37 * i + 11 * j) % 256]]>>, <<"r", "i32", 7>> >>)   \* every element different
+  \/ \E n \in BlkLens : Part = n % NParts /\ sc = ScArr(<< <<"r", "blk", BlkData(n)>>, <<"r", "i32", 7>> >>)
+  \/ \E n \in 1..(IF Deep THEN 6 ELSE 4) : \E c \in Compositions(n) : Part = n % NParts /\
         sc = ScArr(<<<<"bh", n>>>> \o [i \in 1..Len(c) |-> <<"bd", SubSeq(BlkData(n), PrefSum(c, i - 1) + 1, PrefSum(c, i))>>] \o << <<"r", "i32", 7>> >>)
   \/ \E n \in 0..3, k \in 0..3 : k <= n /\ Part = (n + k) % NParts /\           \* k bytes sent, then one byte too many, then the rest
         sc = ScArr(<< <<"bh", n>>, <<"bd", SubSeq(BlkData(n), 1, k)>>, <<"bd", [i \in 1..(n - k + 1) |-> 66]>>, <<"bd", SubSeq(BlkData(n), k + 1, n)>>, <<"r", "i32", 7>> >>)
